@@ -33,6 +33,7 @@ class Action:
     advance: bool = False
     cost: int = 1
     pre: Callable[[], Any] | None = None  # bookkeeping run when chosen (before the iteration)
+    idle: bool = False  # "nothing happens here" filler of an actor: only the default when no other actor has anything to deliver
 
 
 @dataclass
@@ -79,6 +80,7 @@ class Run:
         ios: list[Action] = []
         for a in self.actors:
             ios.extend(a.actions())
+        ios.sort(key=lambda a: a.idle)  # (stable)
         nt = loop.next_timer()
         timers = nt is not None
         menu: list[Action] = []
